@@ -50,7 +50,7 @@ class E2(am_enum.Enum, shape=unsigned(2)):
 
 
 def n_cases(tier):
-    return 150 if tier == "quick" else 1500
+    return 450 if tier == "quick" else 3000
 
 
 def gen_case(rng, tier, idx):
